@@ -168,7 +168,7 @@ theorem initVtoc_facts (c : Nat) (hc : c = 13 ∨ c = 16) :
     (initVtoc 254 c).length = 196 ∧ (∀ x ∈ initVtoc 254 c, x < 256) ∧ Vtoc.tracks (initVtoc 254 c) = 35 ∧
     Vtoc.sectors (initVtoc 254 c) = c ∧ Vtoc.bytesPerSector (initVtoc 254 c) = 256 ∧ Vtoc.maxPairs (initVtoc 254 c) = 122 ∧
     mapVal (initVtoc 254 c) vtocTrack = 0 ∧ (initVtoc 254 c).getD 1 0 = vtocTrack ∧ (initVtoc 254 c).getD 2 0 = c - 1 ∧
-    (initVtoc 254 c).getD 6 0 = 254 := by
+    (initVtoc 254 c).getD 6 0 = 254 ∧ (initVtoc 254 c).getD 0x30 0 = 17 := by
   rcases hc with rfl | rfl <;> decide +kernel
 
 
@@ -212,7 +212,7 @@ theorem blank_sec (c u : Nat) : sec (blank c).raw u = if u < 35 * c then zeros 2
 /-- `init33` / `init32` on a blank image succeed and establish the invariant of the working state -/
 theorem init_winv {c : Nat} (hc : c = 13 ∨ c = 16) :
     ∃ w, init (blank c) 254 c = (.ok (), w.toDisk) ∧ WInv w (initSys c) (initLay c) ∧ w.c = c := by
-  obtain ⟨ivl, ivlt, ivT, ivS, ivB, ivP, ivM, iv1, iv2, iv6⟩ := initVtoc_facts c hc
+  obtain ⟨ivl, ivlt, ivT, ivS, ivB, ivP, ivM, iv1, iv2, iv6, iv30⟩ := initVtoc_facts c hc
   have hc0 : 0 < c := by rcases hc with rfl | rfl <;> omega
   have h17 : vtocTrack * c < 35 * c := by unfold vtocTrack; omega
   -- the zap of the VTOC
@@ -318,7 +318,8 @@ theorem init_winv {c : Nat} (hc : c = 13 ∨ c = 16) :
     unfold volOf initVol filesOf freeOf
     rw [hlive, hvtF, getD_quantize (by omega) (by omega), iv6]
     rfl
-  refine ⟨w', ?_, ⟨hok', by rw [hcw]; exact hdesc, by rw [hcw, hvol]; exact initVol_wf c hc, ?_, ?_⟩, hcw⟩
+  refine ⟨w', ?_, ⟨hok', by rw [hcw]; exact hdesc, by rw [hcw, hvol]; exact initVol_wf c hc, ?_, ?_, ?_,
+    by rw [hvw]; exact iv1, by rw [hvw]; unfold Vtoc.lastTrack; rw [iv30]; decide⟩, hcw⟩
   · have hcond : ¬ (¬ (254 > 0 ∧ 254 < 255) ∨ ¬ (c = 13 ∨ c = 16 ∨ c = 32)) := by rcases hc with rfl | rfl <;> simp
     have hbc : (blank c).c = c := rfl
     unfold init
@@ -335,5 +336,15 @@ theorem init_winv {c : Nat} (hc : c = 13 ∨ c = 16) :
     rw [catFrom_length] at this
     simp at this
     rcases hc with rfl | rfl <;> omega
+  · intro s hs
+    rw [hcw] at hs ⊢
+    unfold initSys
+    refine ⟨?_, ?_⟩
+    · apply List.mem_cons_of_mem
+      exact List.mem_append_right _ (List.mem_range.2 hs)
+    · by_cases h0 : s = 0
+      · subst h0; exact List.mem_cons_self
+      · apply List.mem_cons_of_mem
+        exact List.mem_append_left _ (mem_catFrom.2 ⟨s, by omega, by omega, rfl⟩)
 
 end A2Verif.Fs.Dos3x
